@@ -21,7 +21,11 @@ fn c19_budget_replay() {
             }
             let st = stack(n, l);
             let budget = serialize(&st).len() as u64 + 50; // weight units
-            for w in [budget.saturating_sub(2), budget - 1, budget, budget + 1, budget + 2, budget + 9, budget + 253, budget + 65537] {
+            let mut ws = vec![budget.saturating_sub(2), budget - 1, budget];
+            for d in [1u64, 2, 3, 4, 9, 250, 251, 252, 253, 254, 255, 256, 257, 258, 259, 65533, 65534, 65535, 65536, 65537, 65538, 65539, 65540, 65541, 65542, 65543, 65544] {
+                ws.push(budget + d);
+            }
+            for w in ws {
                 // the smallest cost of weight exactly w
                 let cost = Cost::from_milliweight(((w - 1) * 1000 + 1).min(u32::MAX as u64) as u32);
                 let valid = cost.is_budget_valid(&st);
